@@ -270,6 +270,11 @@ class Ops:
             return NONE
         if isinstance(desc, dsl.Const):
             return self.from_python(desc.value)
+        if isinstance(desc, dsl.ClassOf):
+            info = self.world.find_class(desc.name)
+            value = ClassV(desc.name)
+            value.module = info.module
+            return value
         if isinstance(desc, dsl.Rec):
             fields = {fname: self.fresh(ftype, f"{name}.{fname}", is_input)
                       for fname, ftype in desc.fields.items()}
